@@ -444,9 +444,9 @@ def run(ctx):
         for i, cp in enumerate(corpus):
             runs.append(("corpus%d" % i, "-replay %s" % cp))
         if quick:
-            runs.append(("fresh", "-seed %d -stores 14 -cases 70 -engines mem,pebble -srv 1 -srvbig 5600 -big 5003 -exh 6" % ctx.seed))
+            runs.append(("fresh", "-seed %d -stores 14 -cases 70 -engines mem,pebble -srv 1 -srvbig 5600 -big 5003 -exh 7" % ctx.seed))
         else:
-            runs.append(("fresh", "-seed %d -stores 1200 -cases 140 -engines mem,pebble,rocksdb -srv 20 -srvbig 5600 -big 5003 -exh 9" % ctx.seed))
+            runs.append(("fresh", "-seed %d -stores 1200 -cases 140 -engines mem,pebble,rocksdb -srv 20 -srvbig 5600 -big 5003 -exh 10" % ctx.seed))
 
     all_mism, all_fail, total, hist_all, samples, distinct = [], [], 0, {}, [], set()
     engines = {}
@@ -511,7 +511,8 @@ def run(ctx):
              "S = the same iteration over the redis protocol against a live 1..4-partition in-process server (model: per-partition stores, merged cursor, COUNT split); "
              "vbig = one live 2-partition server with a 5600-key table (pipelined SETs), SCAN/ADVSCAN(+REV) with COUNT 4999, 5000, 5001, 5200, 6000, 10000, 10001, 12000 and none; "
              "F = FULLSCAN per type (direct oracle only); one store with 5003 keys and COUNT around MAX_BATCH_NUM; "
-             "x* = exhaustive small scope: every subset of a pool of 6 (thorough: 9) prefix/boundary-related names as the keys of a table and as the fields of a hash, "
+             "xs* = a store whose table and collections hold every sentinel-like name (\"0\", \"-\", \"+\", \"(\", \"[\", \"-1\", \"00\", base64-looking, table-like), every COUNT 0..|P|+1, both directions; "
+             "x* = exhaustive small scope: every subset of a pool of 7 (thorough: 10) prefix/boundary/sentinel names (incl. \"0\") as the keys of a table and as the fields of a hash, "
              "COUNT 1..3, both directions, every start cursor from the pool. "
              "Non-trivial = the expected result has >= 2 elements; distinct by hash of (case, population).",
         histogram=hist_all,
